@@ -92,7 +92,8 @@ func c05Gen(class string, seed uint64, tier string) *vfScenario {
 		switch k {
 		case "create", "openfile":
 			op.N = rng.IntN(20)
-			op.Off = int64([]int{os.O_RDWR | os.O_CREATE, os.O_WRONLY | os.O_CREATE | os.O_TRUNC, os.O_WRONLY | os.O_CREATE | os.O_EXCL, os.O_RDWR, os.O_WRONLY | os.O_APPEND | os.O_CREATE, os.O_RDONLY}[rng.IntN(6)])
+			op.Off = int64([]int{os.O_RDWR | os.O_CREATE, os.O_WRONLY | os.O_CREATE | os.O_TRUNC, os.O_WRONLY | os.O_CREATE | os.O_EXCL, os.O_RDWR, os.O_WRONLY | os.O_APPEND | os.O_CREATE, os.O_RDONLY,
+				os.O_WRONLY | os.O_TRUNC, os.O_RDWR | os.O_TRUNC, os.O_WRONLY | os.O_EXCL, os.O_RDWR | os.O_CREATE | os.O_EXCL | os.O_TRUNC}[rng.IntN(10)])
 		case "symlink":
 			// target text: a name (relative), absolute, dangling, or going up
 			op.S = []string{"", "", "abs", "dangling", "../"}[rng.IntN(5)]
